@@ -334,8 +334,27 @@ func (e *env) sequence(shape string, maxN int, dir string, gridEvery int, reopen
 				} else {
 					r.Count("marshal_roundtrips", 1)
 				}
+				// reload into a tree object that already holds OTHER state and whose root has been
+				// read (cached) since its last append: the reloaded state must replace it completely
+				used := merkle.NewTree(0, nil, nil)
+				for j := 0; j < 1+N%5; j++ {
+					used.Append([]byte(fmt.Sprintf("other-%d-%d", N, j)))
+				}
+				_ = used.Root()
+				r.Eval(1)
+				if p := kit.Catch(func() { err = used.UnMarshal(buf) }); p != nil || err != nil {
+					r.Violation("unmarshal-into-used-tree-failed", fmt.Sprintf("shape=%s n=%d panic=%v err=%v", shape, N, p, err), map[string]interface{}{"buf": kit.Hex(buf)})
+				} else if [32]byte(used.Root()) != want || used.TreeSize() != uint32(N) || !sameHashes(used.Hashes(), chain.Hashes()) {
+					r.Violation("unmarshal-into-used-tree-mismatch", fmt.Sprintf("shape=%s n=%d: reloading into a tree that held other state gives root %x, want %x (size %d)", shape, N, used.Root(), want, used.TreeSize()), map[string]interface{}{"buf": kit.Hex(buf)})
+				} else {
+					r.Count("marshal_reloads_into_used_tree", 1)
+				}
 				// continue the sequence on the reloaded copy (so that reloaded state is what grows)
-				chain = cp
+				if N%2 == 0 {
+					chain = cp
+				} else {
+					chain = used
+				}
 			}
 		}
 		// --- file store: close and reopen from the hash file
